@@ -14,7 +14,7 @@ def _by_name(name: str) -> int:
     return int(name[1:]) if name and name[0] == "t" and name[1:].isdigit() else -1
 
 
-def run_scenario(scn: dict, *, fast: bool = False, retry: bool = False, eager: bool = False, uv: bool = False) -> dict:
+def run_scenario(scn: dict, *, fast: bool = False, retry: bool = False, cleanup: bool = False, eager: bool = False, uv: bool = False) -> dict:
     """Execute one scenario; returns {"events": [...], "final": {...}, "flags": {...}}."""
     ensure_repo_on_path()
     import anyio
@@ -68,52 +68,64 @@ def run_scenario(scn: dict, *, fast: bool = False, retry: bool = False, eager: b
     async def client(t: int, script: list[str]) -> None:
         state["ids"][id(asyncio.current_task())] = t     # (under the eager factory we run before main registers us)
         lock = state["lock"]
-        holding = False
+        held = {"v": False}
         ops = iter(script)
+
+        async def run_ops() -> None:
+            for op in ops:
+                if op == "acq":
+                    rec.emit(ev="start", t=t, op="acq")
+                    try:
+                        await lock.acquire()
+                    except asyncio.CancelledError:
+                        rec.emit(ev="end", t=t, op="acq", res="cancelled", **obs())
+                        raise
+                    except RuntimeError:
+                        rec.emit(ev="end", t=t, op="acq", res="error", **obs())
+                    else:
+                        held["v"] = True
+                        rec.emit(ev="end", t=t, op="acq", res="ok", **obs())
+                elif op == "nowait":
+                    try:
+                        lock.acquire_nowait()
+                    except anyio.WouldBlock:
+                        rec.emit(ev="nowait", t=t, res="wouldblock", **obs())
+                    except RuntimeError:
+                        rec.emit(ev="nowait", t=t, res="error", **obs())
+                    else:
+                        held["v"] = True
+                        rec.emit(ev="nowait", t=t, res="ok", **obs())
+                elif op == "rel":
+                    try:
+                        lock.release()
+                    except RuntimeError:
+                        rec.emit(ev="rel", t=t, res="error", **obs())
+                    else:
+                        held["v"] = False
+                        rec.emit(ev="rel", t=t, res="ok", **obs())
+                elif op == "yield":
+                    await anyio.lowlevel.checkpoint()
+                elif op == "end":
+                    break
+                else:  # pragma: no cover
+                    raise ValueError(op)
+
         while True:
             scope = state["scopes"][t]
             with scope:
                 try:
-                    for op in ops:
-                        if op == "acq":
-                            rec.emit(ev="start", t=t, op="acq")
-                            try:
-                                await lock.acquire()
-                            except asyncio.CancelledError:
-                                rec.emit(ev="end", t=t, op="acq", res="cancelled", **obs())
-                                raise
-                            except RuntimeError:
-                                rec.emit(ev="end", t=t, op="acq", res="error", **obs())
-                            else:
-                                holding = True
-                                rec.emit(ev="end", t=t, op="acq", res="ok", **obs())
-                        elif op == "nowait":
-                            try:
-                                lock.acquire_nowait()
-                            except anyio.WouldBlock:
-                                rec.emit(ev="nowait", t=t, res="wouldblock", **obs())
-                            except RuntimeError:
-                                rec.emit(ev="nowait", t=t, res="error", **obs())
-                            else:
-                                holding = True
-                                rec.emit(ev="nowait", t=t, res="ok", **obs())
-                        elif op == "rel":
-                            try:
-                                lock.release()
-                            except RuntimeError:
-                                rec.emit(ev="rel", t=t, res="error", **obs())
-                            else:
-                                holding = False
-                                rec.emit(ev="rel", t=t, res="ok", **obs())
-                        elif op == "yield":
-                            await anyio.lowlevel.checkpoint()
-                        elif op == "end":
-                            break
-                        else:  # pragma: no cover
-                            raise ValueError(op)
+                    try:
+                        await run_ops()
+                    except asyncio.CancelledError:
+                        if not cleanup:
+                            raise
+                        # clean-up behind a shield: the remaining operations, then re-raise
+                        with anyio.CancelScope(shield=True):
+                            await run_ops()
+                        raise
                 finally:
-                    if holding:
-                        holding = False
+                    if held["v"]:
+                        held["v"] = False
                         try:
                             lock.release()
                         except RuntimeError:
